@@ -8,6 +8,12 @@ pub const INJECT: &[(&str, &[u8])] = &[
     ("u-ffff", &[0xEF, 0xBF, 0xBF]),
     // U+00C3 U+0080: the shape of non-ASCII text the library's quoted-string grammar accepts
     ("u00c3-u0080", &[0xC3, 0x83, 0xC2, 0x80]),
+    // ... with continuation code points of other Unicode classes: NEL and NBSP (white space), soft hyphen, U+00BF
+    ("u00c3-u0085", &[0xC3, 0x83, 0xC2, 0x85]),
+    ("u00c3-u00a0", &[0xC3, 0x83, 0xC2, 0xA0]),
+    ("u00c3-u00ad", &[0xC3, 0x83, 0xC2, 0xAD]),
+    ("u00e2-u00a2-u00ac", &[0xC3, 0xA2, 0xC2, 0xA2, 0xC2, 0xAC]),
+    ("space", &[0x20]),
     ("lone-continuation", &[0x80]),
     ("dquote", &[0x22]),
     ("backslash", &[0x5C]),
